@@ -29,6 +29,7 @@ type cmdBehaviour struct {
 	mkdirs  []string
 	removes []string
 	sets    []string // external conditions established on success
+	unsets  []string // external conditions destroyed on success
 }
 
 var (
@@ -95,6 +96,9 @@ func verifRunCommand(ctx context.Context, target *model.Target, command string) 
 	}
 	for _, c := range b.sets {
 		extState[c] = true
+	}
+	for _, c := range b.unsets {
+		extState[c] = false
 	}
 	return []byte(b.out), nil
 }
